@@ -39,6 +39,13 @@ OBLIGATIONS.append(dict(name="tar_iterator_record_accounting", harness="harness/
     functions=["it_next, it_open_file_ro, strm_get_buffered_data, strm_advance_buffer, strm_destroy, drop_parent, is_sparse_region (lib/tar/src/iterator.c)"],
     bound="two consecutive members, record size any value < 2^62, the consumer reads any prefix of the member in <= 2 chunks or nothing; the archive stream hands out 1..8 bytes per call and may fail"))
 
+OBLIGATIONS.append(dict(name="tar_iterator_sparse_member", harness="harness/C04_iterator.c", sources=[], included_sources=["lib/tar/src/iterator.c"],
+    incdirs=["lib/tar/src"], defines=dict(SPARSE=1, FSMAX=10), unwind=14, tiers=["quick", "thorough"] if "C04" == "C04" else ["thorough"], timeout=600,
+    fp_map={"get_buffered_data": ["base_get"], "advance_buffer": ["base_adv"], "destroy": ["base_destroy", "it_destroy"]},
+    reach=["sparse_member", "io_error"],
+    functions=["strm_get_buffered_data, strm_advance_buffer, is_sparse_region, it_open_file_ro (lib/tar/src/iterator.c)"],
+    bound="one sparse member: real size <= 10, one mapped data region of symbolic offset and length, the archive hands out 1..8 bytes per call and may fail"))
+
 ASSUMPTIONS = ["sprintf is modelled for the formats used (%0*lo, %06o as an octal formatter that also asserts the value fits the field; %lu writes a placeholder digit: uname/gname are never decoded)", "in the composed header query tar_compute_checksum is abstracted to one arbitrary value <= 512*255 per record; justified by the obligation tar_checksum_ignores_own_field (real function) and the arithmetic range of a 512-term byte sum"]
 OUTSIDE = ["tool-level byte fixpoint tar2sqfs -> sqfs2tar -> tar2sqfs, independent tar implementations"]
 META = dict(
